@@ -362,6 +362,14 @@ func TestVF_C11_Proxy(t *testing.T) {
 			}
 			pr.Encode()
 			out := vfc11kit.Exchange(conn, pr, 60*time.Second)
+			if out.Kind == "closed" && vfc11kit.IsReset(out.Err) && pr.Advertised && !pr.Acks0 {
+				// a reset is no evidence (see ExchangeSolo): ask again, probe alone, new connection
+				st.Class("outcome:reset-settled-by-solo-probe")
+				if c2, derr := vfc11kit.DialRetry(target); derr == nil {
+					out = vfc11kit.ExchangeSolo(c2, pr, 60*time.Second)
+					c2.Close()
+				}
+			}
 			st.Class("class:" + pr.Class)
 			st.Class("outcome:" + out.Kind)
 			if pr.Advertised {
